@@ -226,6 +226,11 @@ func specLabels(s *rt.Spec) []string {
 	if s.Stmt != "" {
 		l = append(l, "stmt:"+s.Stmt)
 	}
+	for _, ts := range s.Tasks {
+		if ts.Pred != nil && ts.Pred.NamedBool {
+			l = append(l, "pred:declared-bool-result(free-verdict)")
+		}
+	}
 	if s.Paren {
 		l = append(l, "paren")
 	}
